@@ -15,6 +15,14 @@ Monitor shape: history + executable model (differential) + invariant + reference
                  reported range covers every pixel / filter (filters: the TRUE support = min / max of the table the
                  filter was built from, registered by the harness, not the filter's self-reported attributes); (max-min)/spectral_bins <= narrowest pixel /
                  min_bins_per_pixel (narrowest window / min_bins_per_window).  Evaluated around every public call.
+  aliasing     : in ~30 % of the cases the history ends with the caller changing IN PLACE the container it handed to the
+                 last constructor / setter of the array-valued parameter (float64 arrays, rows of a 2-D buffer, slices
+                 of a 1-D buffer, int arrays, nested lists, filter lists / object arrays, accommodated_spectra lists /
+                 arrays) or writing into the arrays returned by wavelength_to_pixel / wavelengths.  No setter is
+                 called; afterwards all observables (read on the live instrument in random order, caches warm or cold as
+                 the history left them) must equal those of the instrument built from the values as set, or all those
+                 of one built from the container's current contents; a mixture, or a broken invariant, is reported as
+                 alias:<Class>.<attr>:caller-<form>-mutated-changes-instrument.
   calibration  : calibrate(Spectrum) value * pixel width against the exact integral of the piecewise-linear
                  interpolant through the bin centres with nearest extrapolation (Raysect's documented
                  Spectrum.integrate semantics), computed per pixel with numpy.interp + math.fsum.
@@ -35,7 +43,9 @@ RULE = ("random instruments x random public-setter histories (1..15 ops: valid a
         "domain where resolution() is real and positive for every intermediate state, Polychromator with 1..8 "
         "trapezoidal / tabulated filters (tables ascending / descending / shuffled, irregular duplicate-free spacing, "
         "list / tuple / ndarray, int / float dtype); every array-valued input (pixel edges, accommodated_spectra, "
-        "filters) is also given as list / tuple / ndarray / int dtype, reversed pixel arrays as rejected values; "
+        "filters) is also given as list / tuple / ndarray / int dtype, reversed pixel arrays as rejected values; ~30 % of "
+        "the histories end with an in-place change of the caller-owned container (or a write into getter arrays) "
+        "instead of the final differential; "
         "final calibrate() of source spectra with 1..5000 bins covering the "
         "instrument exactly / loosely / with bin edges aligned to pixel edges.  A case is non-trivial when at least "
         "one setter was accepted and the final differential comparison ran, or at least one pixel was judged by the "
@@ -50,8 +60,12 @@ LEVEL_NOTE = ("trusted: the harness model 'last accepted value per parameter' (a
 TECHNIQUE = ("runtime monitoring: history + executable model (differential fresh-vs-mutated), icontract class invariants, "
              "reference-model oracle for calibration")
 ASSUMPTIONS = [
-    "'parameter changes' are assignments through the public property setters (in-place mutation of a list previously "
-    "handed to a setter is outside the quantifier 'setter sequences')",
+    "'parameter changes' are assignments through the public property setters; what the caller does afterwards with the "
+    "container it handed over (or with arrays a getter returned) is not a parameter change: the instrument must then "
+    "still be ONE consistent instrument -- all observables equal to those built from the values as set, or (tolerated, "
+    "counted as skip) all equal to those built from the container's current contents; only a mixture is a violation",
+    "effects of the instrument on the caller's objects (write-locking a passed array) are outside the wording: counted as "
+    "skips 'outside-wording:...', never judged",
     "an accessor raising the same exception type on the mutated and the fresh instrument counts as equal (skipped and "
     "counted), e.g. CzernyTurnerSpectrometer.pipeline_classes / create_pipelines (AttributeError on both)",
     "for Polychromator the bin-width bound is narrowest filter window / min_bins_per_window; a filter's support and "
@@ -63,7 +77,8 @@ ASSUMPTIONS = [
 QUICK = dict(cases=900, workers=2, timecap=45)
 THOROUGH = dict(cases=40000, workers=16, timecap=420)
 REQUIRED = {"diff_final": 600, "diff_shadow": 3000, "diff_read": 700, "inv_range": 12000, "inv_binwidth": 12000,
-            "calib": 20000, "set_accepted": 350, "set_rejected": 40, "pixels_echo": 60}
+            "calib": 20000, "set_accepted": 350, "set_rejected": 40, "pixels_echo": 60,
+            "alias_judged": 60, "getter_write": 60}
 
 _S = {"in_monitor": False, "memo": None}
 
@@ -204,7 +219,7 @@ def _inv_bin_width(self):
         ok = width <= bound * (1.0 + BINW_SLACK)
         if bound > 0 and width > 0:
             r = (width / bound - 1.0) / BINW_SLACK
-            if r > _S["margins"].get("inv_binwidth", 0.0):
+            if ok and r > _S["margins"].get("inv_binwidth", 0.0):   # margin of checks that held only
                 _S["margins"]["inv_binwidth"] = r
     if not ok:
         _S["last_view_detail"] = dict(spectral_bins=repr(bins), bin_width=width, bound=bound, narrowest=view["narrowest"],
